@@ -343,6 +343,14 @@ func (c *Ctx) floatBinop(op token.Token, x, y string) string {
 
 // compare implements == != < <= > >= on numeric / string / bool values.
 func (c *Ctx) compare(op token.Token, t types.Type, x, y string) string {
+	if isBool(t) {
+		switch op {
+		case token.EQL:
+			return eq(x, y)
+		case token.NEQ:
+			return not(eq(x, y))
+		}
+	}
 	switch op {
 	case token.EQL:
 		if isFloat(t) && c.mode.FP {
